@@ -450,6 +450,21 @@ class Ctx:
         # after the obligation it may be assumed (it is checked separately)
         self.assume(phi)
 
+    def decide_nocheck(self, cond):
+        """fork without feasibility pruning (an infeasible branch only yields vacuous obligations)"""
+        if not z3.is_expr(cond):
+            return bool(cond)
+        cond = z3.simplify(cond)
+        if z3.is_true(cond):
+            return True
+        if z3.is_false(cond):
+            return False
+        i = len(self.taken)
+        choice = self.prefix[i] if i < len(self.prefix) else True
+        self.taken.append(choice)
+        self.pc.append(cond if choice else z3.Not(cond))
+        return choice
+
     def decide_free(self, label):
         """fork on a fresh, unconstrained choice (no solver call needed: both sides feasible)"""
         cond = z3.Bool(self.fresh(label))
